@@ -151,7 +151,8 @@ class Gen:
         mx = (1 << w) - 1
         s = self.cstrat
         v = 0 if s == "zero" else min(1, mx) if s == "one" else mx if s == "max" else (
-            self.rng.randint(0, min(3, mx)) if s == "small" else self.rng.randint(0, mx))
+            self.rng.randint(0, min(3, mx)) if s == "small" else self.rng.randint(min(1, mx), min(3, mx))
+            if s == "related" else self.rng.randint(0, mx))
         if self.cap is not None:
             v = min(v, self.cap)
         return v
@@ -217,6 +218,22 @@ class Gen:
                 if self.cap is not None:
                     n_1 = min(n_1, self.cap)
                 m_1 = rng.randint(0, n_1) if self.cstrat != "max" else n_1
+                if self.cstrat == "related":
+                    # layers RELATED to the one before: another (degree, order) with the SAME number of cosine
+                    # coefficients (and so a different number of sine coefficients), or the same degree
+                    prev = getattr(self, "_prev_harm", None)
+                    if prev is None:
+                        n_1 = rng.randint(1, 7)
+                        m_1 = rng.randint(0, n_1)
+                    else:
+                        pn, pm = prev
+                        pc = harm_counts(pn, pm)[0]
+                        cands = [(a, b) for a in range(1, 17) for b in range(1, a + 1)
+                                 if (a, b) != (pn, pm) and (harm_counts(a, b)[0] == pc or (a == pn and rng.random() < 0.2))]
+                        if cands:
+                            a, b = rng.choice(cands)
+                            n_1, m_1 = a - 1, b - 1
+                    self._prev_harm = (n_1 + 1, m_1 + 1)
                 self.put(n_1, 4)
                 self.put(m_1, 4)
                 nc, ns = harm_counts(n_1 + 1, m_1 + 1)
